@@ -1,7 +1,894 @@
-//! C11 — stub (not built yet).
+//! C11 — CA protocol XML (RFC 6492, 8181, 8183) round-trips and stays well-formed.
+//!
+//! Sub-checks:
+//!  * `roundtrip`   every message variant constructible through the public
+//!                  API: decode(write(m)) == m, field-by-field comparison with
+//!                  the generated plain data, write(decode(write(m))) == write(m)
+//!  * `wellformed`  batches of written messages through Python's expat
+//!                  (/verif/tools/xmlwf.py): well-formed, and expat's view of
+//!                  elements / attribute values / text equals what was written
+//!  * `parsers`     arbitrary and XML-aware mutated bytes into every decoder
 
+use crate::c09::{gen_bytes, hash32, https_uri, rsync_uri, DataSpec};
 use crate::engine::*;
+use crate::gen::U128;
+use proptest::prelude::*;
+use rpki::ca::idexchange::{
+    ChildHandle, ChildRequest, ParentHandle, ParentResponse, PublisherHandle, PublisherRequest, RecipientHandle,
+    RepositoryResponse, SenderHandle, ServiceUri,
+};
+use rpki::ca::provisioning::{
+    self, IssuanceRequest, IssuanceResponse, IssuedCert, NotPerformedResponse, Payload, RequestResourceLimit,
+    ResourceClassEntitlements, ResourceClassListResponse, ResourceClassName, RevocationRequest, RevocationResponse,
+    SigningCert,
+};
+use rpki::ca::publication::{
+    self, Base64, ErrorReply, ListElement, ListReply, Publish, PublishDelta, PublishDeltaElement, Query, Reply,
+    ReportError, ReportErrorCode, Update, Withdraw,
+};
+use rpki::crypto::KeyIdentifier;
+use rpki::repository::resources::{AsBlocks, Ipv4Blocks, Ipv6Blocks, ResourceSet};
+use rpki::repository::x509::Time;
+use rpki::rrdp::Hash;
+use rpki::uri;
+use serde::{Deserialize, Serialize};
+use std::net::{Ipv4Addr, Ipv6Addr};
+use std::str::FromStr;
+
+#[path = "c11_pool.rs"]
+mod pool;
+#[path = "c11_oracles.rs"]
+mod oracles;
+
+pub const RULE: &str = "roundtrip: random messages of every variant constructible through the public API — RFC 6492 list, \
+list_response (0..5 classes x 0..4 issued certificates), issue (+ request limits), issue_response, revoke, revoke_response, \
+all eleven NotPerformedResponse::err_*; RFC 8181 list query, list reply (0..300 elements), publish/update/withdraw deltas \
+(0..12 PDUs, object contents 0..64 KiB incl. empty), success, error replies (1..4 ReportError::with_code); RFC 8183 \
+child_request, parent_response, publisher_request, repository_response. Handles from [-_A-Za-z0-9/]{1,255}; class names and \
+tags are xsd:token strings over printable ASCII with elevated < > & ' \"; rsync/HTTPS URIs over the URI alphabet with \
+elevated & and '; HTTP service URIs; canonical resource sets of all shapes (empty, full, single values, prefixes, ranges; \
+IPv6 blocks whose text form contains a dotted quad are left out, finding F16 belongs to C03); certificates, CSRs and \
+identity certificates from a pre-built pool. Oracle: decode(write(m)) == m by library == and field by field against \
+the generated data, and write(decode(write(m))) == write(m); messages with a PDU tag of None only take part in the \
+second relation. Non-trivial = an attribute value containing an XML-special character or a list of >= 2 elements. \
+wellformed: batches of 200 such messages (drawn from the same strategy with a generator seeded from seed and batch index) through expat; every checked message counts as non-trivial; expat-available: one probe document (a missing python3/expat makes the run inconclusive). parsers: arbitrary \
+bytes, /repo/test-data/ca XML files and written messages under 0..6 XML-aware mutations into all six decoders; oracle = \
+no panic (accepted values are additionally written and walked).";
+
+//------------ plain-data specs ---------------------------------------------------
+
+/// Canonical (sorted, disjoint, non-adjacent) inclusive ranges.
+#[derive(Clone, Debug, Default, Serialize, Deserialize, PartialEq, Eq)]
+pub struct ResSpec {
+    pub asn: Vec<(u32, u32)>,
+    pub v4: Vec<(u32, u32)>,
+    pub v6: Vec<(U128, U128)>,
+}
+
+#[derive(Clone, Debug, Default, Serialize, Deserialize, PartialEq, Eq)]
+pub struct LimitSpec {
+    pub asn: Option<Vec<(u32, u32)>>,
+    pub v4: Option<Vec<(u32, u32)>>,
+    pub v6: Option<Vec<(U128, U128)>>,
+}
+
+#[derive(Clone, Debug, Serialize, Deserialize)]
+pub struct IssuedSpec {
+    pub uri: String,
+    pub limit: LimitSpec,
+    pub cert: u8,
+}
+
+#[derive(Clone, Debug, Serialize, Deserialize)]
+pub struct ClassSpec {
+    pub class_name: String,
+    pub res: ResSpec,
+    /// seconds since the Unix epoch
+    pub not_after: i64,
+    pub issued: Vec<IssuedSpec>,
+    pub signing_url: String,
+    pub signing_cert: u8,
+}
+
+#[derive(Clone, Debug, Serialize, Deserialize)]
+pub enum ProvPayload {
+    List,
+    ListResponse(Vec<ClassSpec>),
+    Issue { class_name: String, limit: LimitSpec, csr: u8 },
+    IssueResponse(ClassSpec),
+    Revoke { class_name: String, key: u64 },
+    RevokeResponse { class_name: String, key: u64 },
+    Error(u8),
+}
+
+#[derive(Clone, Debug, Serialize, Deserialize)]
+pub struct Prov {
+    pub sender: String,
+    pub recipient: String,
+    pub payload: ProvPayload,
+}
+
+#[derive(Clone, Debug, Serialize, Deserialize, PartialEq, Eq)]
+pub enum TagSpec {
+    None,
+    Some(String),
+    HashTag,
+}
+
+#[derive(Clone, Debug, Serialize, Deserialize)]
+pub enum PduSpec {
+    Publish { tag: TagSpec, uri: String, data: DataSpec },
+    Update { tag: TagSpec, uri: String, data: DataSpec, hash: u64 },
+    Withdraw { tag: TagSpec, uri: String, hash: u64 },
+}
+
+#[derive(Clone, Debug, Serialize, Deserialize)]
+pub enum PubMsg {
+    ListQuery,
+    ListReply(Vec<(String, u64)>),
+    Delta(Vec<PduSpec>),
+    Success,
+    Error(Vec<u8>),
+}
+
+#[derive(Clone, Debug, Serialize, Deserialize)]
+pub enum SvcSpec {
+    Https(String),
+    Http(String),
+}
+
+#[derive(Clone, Debug, Serialize, Deserialize)]
+pub enum IdMsg {
+    Child { idcert: u8, handle: String },
+    Parent { idcert: u8, parent: String, child: String, service: SvcSpec, tag: Option<String> },
+    Publisher { idcert: u8, handle: String, tag: Option<String> },
+    Repository { idcert: u8, handle: String, service: SvcSpec, sia_base: String, rrdp: Option<String>, tag: Option<String> },
+}
+
+#[derive(Clone, Debug, Serialize, Deserialize)]
+pub enum Msg {
+    Prov(Prov),
+    Pub(PubMsg),
+    Id(IdMsg),
+}
+
+//------------ strategies -------------------------------------------------------------
+
+fn token_char() -> BoxedStrategy<char> {
+    prop_oneof![
+        4 => prop::sample::select(vec!['<', '>', '&', '\'', '"']),
+        1 => prop::sample::select(vec![';', '#', '=', '/', '!', '-', ']', '[', '?', '%', '{', '}', '\\', '`', '~', '|', '^', '@']),
+        5 => prop::sample::select("abcdefghijklmnopqrstuvwxyzABCXYZ0123456789_".chars().collect::<Vec<_>>()),
+    ]
+    .boxed()
+}
+
+/// xsd:token over printable ASCII: words separated by single spaces.
+pub(crate) fn token() -> BoxedStrategy<String> {
+    prop_oneof![
+        1 => Just(String::new()),
+        2 => prop::sample::select(vec!["0", "all", "&amp;", "&lt;", "&#x41;", "]]>", "<!--", "a&b", "it's", "\"q\"", "<msg>", "&", "<", ">", "'", "\""]).prop_map(|s| s.to_string()),
+        8 => prop::collection::vec(prop::collection::vec(token_char(), 1..7).prop_map(|v| v.into_iter().collect::<String>()), 1..4)
+            .prop_map(|w| w.join(" ")),
+    ]
+    .boxed()
+}
+
+pub(crate) fn handle() -> BoxedStrategy<String> {
+    prop_oneof![
+        8 => "[-_A-Za-z0-9/]{1,12}".prop_map(|s| s),
+        1 => "[-_A-Za-z0-9/]{200,255}".prop_map(|s| s),
+        1 => prop::sample::select(vec!["/", "-", "_", "a/b/c", "0"]).prop_map(|s| s.to_string()),
+    ]
+    .boxed()
+}
+
+fn points32() -> BoxedStrategy<Vec<u32>> {
+    prop::collection::vec(crate::gen::dense_u32(), 0..9).boxed()
+}
+
+fn points128() -> BoxedStrategy<Vec<u128>> {
+    prop::collection::vec(crate::gen::dense_u128(), 0..9).boxed()
+}
+
+fn canon32(mut p: Vec<u32>, shape: u8) -> Vec<(u32, u32)> {
+    match shape % 8 {
+        0 => return vec![],
+        1 => return vec![(0, u32::MAX)],
+        _ => {}
+    }
+    p.sort();
+    p.dedup();
+    let mut out: Vec<(u32, u32)> = Vec::new();
+    let mut it = p.into_iter();
+    while let Some(a) = it.next() {
+        // odd shapes: single values now and then
+        let b = if shape % 3 == 0 { a } else { it.next().unwrap_or(a) };
+        if let Some(&(_, last)) = out.last() {
+            if last == u32::MAX || a <= last + 1 {
+                continue;
+            }
+        }
+        out.push((a, b));
+    }
+    out
+}
+
+fn canon128(mut p: Vec<u128>, shape: u8) -> Vec<(U128, U128)> {
+    match shape % 8 {
+        0 => return vec![],
+        1 => return vec![(U128(0), U128(u128::MAX))],
+        _ => {}
+    }
+    p.sort();
+    p.dedup();
+    let mut out: Vec<(U128, U128)> = Vec::new();
+    let mut it = p.into_iter();
+    while let Some(a) = it.next() {
+        let b = if shape % 3 == 0 { a } else { it.next().unwrap_or(a) };
+        if let Some(&(_, last)) = out.last() {
+            if last.0 == u128::MAX || a <= last.0 + 1 {
+                continue;
+            }
+        }
+        out.push((U128(a), U128(b)));
+    }
+    out
+}
+
+fn res_spec() -> BoxedStrategy<ResSpec> {
+    (points32(), any::<u8>(), points32(), any::<u8>(), points128(), any::<u8>())
+        .prop_map(|(a, sa, b, sb, c, sc)| ResSpec { asn: canon32(a, sa), v4: canon32(b, sb), v6: canon128(c, sc) })
+        .boxed()
+}
+
+fn limit_spec() -> BoxedStrategy<LimitSpec> {
+    (res_spec(), 0u8..8)
+        .prop_map(|(r, mask)| LimitSpec {
+            asn: if mask & 1 != 0 { Some(r.asn) } else { None },
+            v4: if mask & 2 != 0 { Some(r.v4) } else { None },
+            v6: if mask & 4 != 0 { Some(r.v6) } else { None },
+        })
+        .boxed()
+}
+
+fn not_after() -> BoxedStrategy<i64> {
+    // 0001-01-01T00:00:00Z ..= 9999-12-31T23:59:59Z
+    const MIN: i64 = -62_135_596_800;
+    const MAX: i64 = 253_402_300_799;
+    prop_oneof![
+        2 => prop::sample::select(vec![MIN, MAX, 0, -1, 1, 2_147_483_647, 2_147_483_648, 4_102_444_800, 951_782_400, 946_684_799, 1_700_000_000]),
+        3 => 1_500_000_000i64..2_500_000_000,
+        1 => MIN..=MAX,
+    ]
+    .boxed()
+}
+
+fn issued_spec() -> BoxedStrategy<IssuedSpec> {
+    (rsync_uri(), limit_spec(), 0u8..4).prop_map(|(uri, limit, cert)| IssuedSpec { uri, limit, cert }).boxed()
+}
+
+fn class_spec(max_issued: usize, min_issued: usize) -> BoxedStrategy<ClassSpec> {
+    (token(), res_spec(), not_after(), prop::collection::vec(issued_spec(), min_issued..=max_issued), rsync_uri(), 0u8..4)
+        .prop_map(|(class_name, res, not_after, issued, signing_url, signing_cert)| ClassSpec { class_name, res, not_after, issued, signing_url, signing_cert })
+        .boxed()
+}
+
+fn prov() -> BoxedStrategy<Prov> {
+    let payload = prop_oneof![
+        Just(ProvPayload::List),
+        prop::collection::vec(class_spec(4, 0), 0..=5).prop_map(ProvPayload::ListResponse),
+        (token(), limit_spec(), 0u8..3).prop_map(|(class_name, limit, csr)| ProvPayload::Issue { class_name, limit, csr }),
+        class_spec(1, 1).prop_map(ProvPayload::IssueResponse),
+        (token(), any::<u64>()).prop_map(|(class_name, key)| ProvPayload::Revoke { class_name, key }),
+        (token(), any::<u64>()).prop_map(|(class_name, key)| ProvPayload::RevokeResponse { class_name, key }),
+        (0u8..11).prop_map(ProvPayload::Error),
+    ];
+    (handle(), handle(), payload).prop_map(|(sender, recipient, payload)| Prov { sender, recipient, payload }).boxed()
+}
+
+fn tag_spec() -> BoxedStrategy<TagSpec> {
+    prop_oneof![1 => Just(TagSpec::None), 6 => token().prop_map(TagSpec::Some), 2 => Just(TagSpec::HashTag)].boxed()
+}
+
+fn content() -> BoxedStrategy<DataSpec> {
+    prop_oneof![
+        2 => Just(DataSpec::Lit(vec![])),
+        5 => prop::collection::vec(any::<u8>(), 0..12).prop_map(DataSpec::Lit),
+        4 => (any::<u64>(), 0u32..2000).prop_map(|(seed, len)| DataSpec::Gen { seed, len }),
+        1 => (any::<u64>(), 0u32..=65536).prop_map(|(seed, len)| DataSpec::Gen { seed, len }),
+    ]
+    .boxed()
+}
+
+fn pdu_spec() -> BoxedStrategy<PduSpec> {
+    prop_oneof![
+        (tag_spec(), rsync_uri(), content()).prop_map(|(tag, uri, data)| PduSpec::Publish { tag, uri, data }),
+        (tag_spec(), rsync_uri(), content(), any::<u64>()).prop_map(|(tag, uri, data, hash)| PduSpec::Update { tag, uri, data, hash }),
+        (tag_spec(), rsync_uri(), any::<u64>()).prop_map(|(tag, uri, hash)| PduSpec::Withdraw { tag, uri, hash }),
+    ]
+    .boxed()
+}
+
+fn pub_msg() -> BoxedStrategy<PubMsg> {
+    prop_oneof![
+        1 => Just(PubMsg::ListQuery),
+        2 => prop_oneof![4 => 0usize..5, 1 => 0usize..=300]
+            .prop_flat_map(|n| prop::collection::vec((rsync_uri(), any::<u64>()), n..=n))
+            .prop_map(PubMsg::ListReply),
+        3 => prop::collection::vec(pdu_spec(), 0..12).prop_map(PubMsg::Delta),
+        1 => Just(PubMsg::Success),
+        1 => prop::collection::vec(0u8..8, 1..5).prop_map(PubMsg::Error),
+    ]
+    .boxed()
+}
+
+fn http_uri() -> BoxedStrategy<String> {
+    (
+        prop::sample::select(vec!["http://", "http://", "HTTP://", "Http://"]),
+        "[a-z0-9.-]{1,12}(:[0-9]{1,5})?",
+        prop::collection::vec(
+            prop::sample::select("abcxyzABC019-._~:/?#[]@!$&'()*+,;=%".chars().collect::<Vec<_>>()),
+            0..16,
+        ),
+    )
+        .prop_map(|(s, host, path)| format!("{}{}/{}", s, host, path.into_iter().collect::<String>()))
+        .boxed()
+}
+
+fn svc_spec() -> BoxedStrategy<SvcSpec> {
+    prop_oneof![https_uri().prop_map(SvcSpec::Https), http_uri().prop_map(SvcSpec::Http)].boxed()
+}
+
+fn opt_tag() -> BoxedStrategy<Option<String>> {
+    prop::option::weighted(0.7, token()).boxed()
+}
+
+fn id_msg() -> BoxedStrategy<IdMsg> {
+    prop_oneof![
+        (0u8..3, handle()).prop_map(|(idcert, handle)| IdMsg::Child { idcert, handle }),
+        (0u8..3, handle(), handle(), svc_spec(), opt_tag())
+            .prop_map(|(idcert, parent, child, service, tag)| IdMsg::Parent { idcert, parent, child, service, tag }),
+        (0u8..3, handle(), opt_tag()).prop_map(|(idcert, handle, tag)| IdMsg::Publisher { idcert, handle, tag }),
+        (0u8..3, handle(), svc_spec(), rsync_uri(), prop::option::weighted(0.7, https_uri()), opt_tag())
+            .prop_map(|(idcert, handle, service, sia_base, rrdp, tag)| IdMsg::Repository { idcert, handle, service, sia_base, rrdp, tag }),
+    ]
+    .boxed()
+}
+
+pub(crate) fn msg() -> BoxedStrategy<Msg> {
+    prop_oneof![
+        7 => prov().prop_map(Msg::Prov),
+        5 => pub_msg().prop_map(Msg::Pub),
+        4 => id_msg().prop_map(Msg::Id),
+    ]
+    .boxed()
+}
+
+//------------ building library values ---------------------------------------------------
+
+fn bad(what: &str, s: &str, e: impl std::fmt::Display) -> Fail {
+    Fail::new(format!("generator produced an invalid {} '{}': {}", what, s, e))
+}
+
+fn rs(s: &str) -> Result<uri::Rsync, Fail> {
+    uri::Rsync::from_str(s).map_err(|e| bad("rsync URI", s, e))
+}
+
+fn hs(s: &str) -> Result<uri::Https, Fail> {
+    uri::Https::from_str(s).map_err(|e| bad("https URI", s, e))
+}
+
+fn is_pow2_block(min: u128, max: u128, bits: u32) -> Option<u8> {
+    // (min,max) is a prefix iff size is a power of two and min is aligned
+    let size_m1 = max - min;
+    if size_m1 == u128::MAX {
+        return Some(0);
+    }
+    let size = size_m1 + 1;
+    if size.is_power_of_two() && min % size == 0 {
+        Some((bits - size.trailing_zeros()) as u8)
+    } else {
+        None
+    }
+}
+
+pub(crate) fn as_text(r: &[(u32, u32)]) -> String {
+    r.iter().map(|&(a, b)| if a == b { format!("AS{}", a) } else { format!("AS{}-AS{}", a, b) }).collect::<Vec<_>>().join(", ")
+}
+
+pub(crate) fn v4_text(r: &[(u32, u32)]) -> String {
+    r.iter()
+        .map(|&(a, b)| match is_pow2_block(a as u128, b as u128, 32) {
+            Some(len) => format!("{}/{}", Ipv4Addr::from(a), len),
+            None => format!("{}-{}", Ipv4Addr::from(a), Ipv4Addr::from(b)),
+        })
+        .collect::<Vec<_>>()
+        .join(", ")
+}
+
+pub(crate) fn v6_text(r: &[(U128, U128)]) -> String {
+    r.iter()
+        .filter_map(|&(a, b)| {
+            let (sa, sb) = (Ipv6Addr::from(a.0).to_string(), Ipv6Addr::from(b.0).to_string());
+            // std prints IPv4-mapped addresses with a dotted quad, which
+            // Ipv6Blocks::from_str refuses (finding F16, owned by C03)
+            if sa.contains('.') || sb.contains('.') {
+                return None;
+            }
+            Some(match is_pow2_block(a.0, b.0, 128) {
+                Some(len) => format!("{}/{}", sa, len),
+                None => format!("{}-{}", sa, sb),
+            })
+        })
+        .collect::<Vec<_>>()
+        .join(", ")
+}
+
+fn asn_blocks(r: &[(u32, u32)]) -> Result<AsBlocks, Fail> {
+    let t = as_text(r);
+    AsBlocks::from_str(&t).map_err(|e| bad("AS set", &t, e))
+}
+fn v4_blocks(r: &[(u32, u32)]) -> Result<Ipv4Blocks, Fail> {
+    let t = v4_text(r);
+    Ipv4Blocks::from_str(&t).map_err(|e| bad("IPv4 set", &t, e))
+}
+fn v6_blocks(r: &[(U128, U128)]) -> Result<Ipv6Blocks, Fail> {
+    let t = v6_text(r);
+    Ipv6Blocks::from_str(&t).map_err(|e| bad("IPv6 set", &t, e))
+}
+
+fn res_set(r: &ResSpec) -> Result<ResourceSet, Fail> {
+    Ok(ResourceSet::new(asn_blocks(&r.asn)?, v4_blocks(&r.v4)?, v6_blocks(&r.v6)?))
+}
+
+fn limit(l: &LimitSpec) -> Result<RequestResourceLimit, Fail> {
+    let mut out = RequestResourceLimit::new();
+    if let Some(a) = &l.asn {
+        out.with_asn(asn_blocks(a)?);
+    }
+    if let Some(a) = &l.v4 {
+        out.with_ipv4(v4_blocks(a)?);
+    }
+    if let Some(a) = &l.v6 {
+        out.with_ipv6(v6_blocks(a)?);
+    }
+    Ok(out)
+}
+
+pub(crate) fn time_of(secs: i64) -> Result<Time, Fail> {
+    chrono::DateTime::from_timestamp(secs, 0).map(Time::new).ok_or_else(|| Fail::new(format!("generator produced an invalid time {}", secs)))
+}
+
+pub(crate) fn key_id(seed: u64) -> KeyIdentifier {
+    let v = gen_bytes(seed, 20);
+    let mut a = [0u8; 20];
+    a.copy_from_slice(&v);
+    KeyIdentifier::from(a)
+}
+
+fn class(c: &ClassSpec) -> Result<ResourceClassEntitlements, Fail> {
+    let p = pool::pool();
+    let mut issued = Vec::new();
+    for i in &c.issued {
+        issued.push(IssuedCert::new(rs(&i.uri)?, limit(&i.limit)?, p.certs[i.cert as usize % p.certs.len()].clone()));
+    }
+    Ok(ResourceClassEntitlements::new(
+        ResourceClassName::from(c.class_name.as_str()),
+        res_set(&c.res)?,
+        time_of(c.not_after)?,
+        issued,
+        SigningCert::new(rs(&c.signing_url)?, p.certs[c.signing_cert as usize % p.certs.len()].clone()),
+    ))
+}
+
+pub(crate) fn not_performed(i: u8) -> NotPerformedResponse {
+    match i % 11 {
+        0 => NotPerformedResponse::err_1101(),
+        1 => NotPerformedResponse::err_1102(),
+        2 => NotPerformedResponse::err_1103(),
+        3 => NotPerformedResponse::err_1104(),
+        4 => NotPerformedResponse::err_1201(),
+        5 => NotPerformedResponse::err_1202(),
+        6 => NotPerformedResponse::err_1203(),
+        7 => NotPerformedResponse::err_1204(),
+        8 => NotPerformedResponse::err_1301(),
+        9 => NotPerformedResponse::err_1302(),
+        _ => NotPerformedResponse::err_2001(),
+    }
+}
+
+pub(crate) fn error_code(i: u8) -> ReportErrorCode {
+    match i % 8 {
+        0 => ReportErrorCode::XmlError,
+        1 => ReportErrorCode::PermissionFailure,
+        2 => ReportErrorCode::BadCmsSignature,
+        3 => ReportErrorCode::ObjectAlreadyPresent,
+        4 => ReportErrorCode::NoObjectPresent,
+        5 => ReportErrorCode::NoObjectMatchingHash,
+        6 => ReportErrorCode::ConsistencyProblem,
+        _ => ReportErrorCode::OtherError,
+    }
+}
+
+fn h<T: FromStr>(s: &str) -> Result<T, Fail>
+where
+    T::Err: std::fmt::Display,
+{
+    T::from_str(s).map_err(|e| bad("handle", s, e))
+}
+
+fn build_prov(p: &Prov) -> Result<provisioning::Message, Fail> {
+    let sender: SenderHandle = h(&p.sender)?;
+    let recipient: RecipientHandle = h(&p.recipient)?;
+    let pl = pool::pool();
+    Ok(match &p.payload {
+        ProvPayload::List => provisioning::Message::list(sender, recipient),
+        ProvPayload::ListResponse(classes) => {
+            let mut v = Vec::new();
+            for c in classes {
+                v.push(class(c)?);
+            }
+            provisioning::Message::list_response(sender, recipient, ResourceClassListResponse::new(v))
+        }
+        ProvPayload::Issue { class_name, limit: l, csr } => provisioning::Message::issue(
+            sender,
+            recipient,
+            IssuanceRequest::new(ResourceClassName::from(class_name.as_str()), limit(l)?, pl.csrs[*csr as usize % pl.csrs.len()].clone()),
+        ),
+        ProvPayload::IssueResponse(c) => {
+            ensure_shape(c.issued.len() == 1)?;
+            let i = &c.issued[0];
+            provisioning::Message::issue_response(
+                sender,
+                recipient,
+                IssuanceResponse::new(
+                    ResourceClassName::from(c.class_name.as_str()),
+                    res_set(&c.res)?,
+                    time_of(c.not_after)?,
+                    IssuedCert::new(rs(&i.uri)?, limit(&i.limit)?, pl.certs[i.cert as usize % pl.certs.len()].clone()),
+                    SigningCert::new(rs(&c.signing_url)?, pl.certs[c.signing_cert as usize % pl.certs.len()].clone()),
+                ),
+            )
+        }
+        ProvPayload::Revoke { class_name, key } => {
+            provisioning::Message::revoke(sender, recipient, RevocationRequest::new(ResourceClassName::from(class_name.as_str()), key_id(*key)))
+        }
+        ProvPayload::RevokeResponse { class_name, key } => {
+            let req = RevocationRequest::new(ResourceClassName::from(class_name.as_str()), key_id(*key));
+            provisioning::Message::revoke_response(sender, recipient, RevocationResponse::from(&req))
+        }
+        ProvPayload::Error(i) => provisioning::Message::not_performed_response(sender, recipient, not_performed(*i))
+            .map_err(|e| Fail::new(format!("not_performed_response: {}", e)))?,
+    })
+}
+
+fn ensure_shape(ok: bool) -> Result<(), Fail> {
+    if ok { Ok(()) } else { Err(Fail::new("malformed case: an issue response carries exactly one certificate")) }
+}
+
+fn tag_of(t: &TagSpec) -> Option<Option<String>> {
+    match t {
+        TagSpec::None => Some(None),
+        TagSpec::Some(s) => Some(Some(s.clone())),
+        TagSpec::HashTag => None,
+    }
+}
+
+fn build_pub(m: &PubMsg) -> Result<publication::Message, Fail> {
+    Ok(match m {
+        PubMsg::ListQuery => publication::Message::list_query(),
+        PubMsg::ListReply(els) => {
+            let mut r = ListReply::empty();
+            for (u, hsh) in els {
+                r.add_element(ListElement::new(rs(u)?, Hash::from(hash32(*hsh))));
+            }
+            publication::Message::list_reply(r)
+        }
+        PubMsg::Delta(pdus) => {
+            let mut d = PublishDelta::empty();
+            for p in pdus {
+                match p {
+                    PduSpec::Publish { tag, uri, data } => {
+                        let c = Base64::from_content(&data.bytes());
+                        d.add_publish(match tag_of(tag) {
+                            Some(t) => Publish::new(t, rs(uri)?, c),
+                            None => Publish::with_hash_tag(rs(uri)?, c),
+                        })
+                    }
+                    PduSpec::Update { tag, uri, data, hash } => {
+                        let c = Base64::from_content(&data.bytes());
+                        let old = Hash::from(hash32(*hash));
+                        d.add_update(match tag_of(tag) {
+                            Some(t) => Update::new(t, rs(uri)?, c, old),
+                            None => Update::with_hash_tag(rs(uri)?, c, old),
+                        })
+                    }
+                    PduSpec::Withdraw { tag, uri, hash } => {
+                        let old = Hash::from(hash32(*hash));
+                        d.add_withdraw(match tag_of(tag) {
+                            Some(t) => Withdraw::new(t, rs(uri)?, old),
+                            None => Withdraw::with_hash_tag(rs(uri)?, old),
+                        })
+                    }
+                }
+            }
+            publication::Message::delta(d)
+        }
+        PubMsg::Success => publication::Message::success(),
+        PubMsg::Error(codes) => {
+            if codes.is_empty() {
+                return Err(Fail::new("malformed case: an error reply carries at least one report_error (RFC 8181 2.5)"));
+            }
+            let mut e = ErrorReply::empty();
+            for c in codes {
+                e.add_error(ReportError::with_code(error_code(*c)));
+            }
+            publication::Message::error(e)
+        }
+    })
+}
+
+fn svc(s: &SvcSpec) -> Result<ServiceUri, Fail> {
+    Ok(match s {
+        SvcSpec::Https(u) => ServiceUri::Https(hs(u)?),
+        SvcSpec::Http(u) => {
+            if !u.to_ascii_lowercase().starts_with("http://") {
+                return Err(Fail::new(format!("generator produced an invalid http URI {}", u)));
+            }
+            ServiceUri::Http(u.clone())
+        }
+    })
+}
+
+pub(crate) enum Built {
+    Prov(provisioning::Message),
+    Pub(publication::Message),
+    Child(ChildRequest),
+    Parent(ParentResponse),
+    Publisher(PublisherRequest),
+    Repository(RepositoryResponse),
+}
+
+impl Built {
+    pub fn write(&self) -> Vec<u8> {
+        let mut v = Vec::new();
+        let r = match self {
+            Built::Prov(m) => m.write_xml(&mut v),
+            Built::Pub(m) => m.write_xml(&mut v),
+            Built::Child(m) => m.write_xml(&mut v),
+            Built::Parent(m) => m.write_xml(&mut v),
+            Built::Publisher(m) => m.write_xml(&mut v),
+            Built::Repository(m) => m.write_xml(&mut v),
+        };
+        r.expect("writing XML into a Vec cannot fail");
+        v
+    }
+
+    /// Decodes `bytes` with the decoder belonging to this kind of message.
+    pub fn decode_like(&self, bytes: &[u8]) -> Result<Built, String> {
+        Ok(match self {
+            Built::Prov(_) => Built::Prov(provisioning::Message::decode(bytes).map_err(|e| e.to_string())?),
+            Built::Pub(_) => Built::Pub(publication::Message::decode(bytes).map_err(|e| e.to_string())?),
+            Built::Child(_) => Built::Child(ChildRequest::parse(bytes).map_err(|e| e.to_string())?),
+            Built::Parent(_) => Built::Parent(ParentResponse::parse(bytes).map_err(|e| e.to_string())?),
+            Built::Publisher(_) => Built::Publisher(PublisherRequest::parse(bytes).map_err(|e| e.to_string())?),
+            Built::Repository(_) => Built::Repository(RepositoryResponse::parse(bytes).map_err(|e| e.to_string())?),
+        })
+    }
+
+    pub fn same(&self, other: &Built) -> bool {
+        match (self, other) {
+            (Built::Prov(a), Built::Prov(b)) => a == b,
+            (Built::Pub(a), Built::Pub(b)) => a == b,
+            (Built::Child(a), Built::Child(b)) => a == b,
+            (Built::Parent(a), Built::Parent(b)) => a == b,
+            (Built::Publisher(a), Built::Publisher(b)) => a == b,
+            (Built::Repository(a), Built::Repository(b)) => a == b,
+            _ => false,
+        }
+    }
+}
+
+pub(crate) fn build(m: &Msg) -> Result<Built, Fail> {
+    let p = pool::pool();
+    let idc = |i: u8| Base64::from_content(&p.idcerts[i as usize % p.idcerts.len()]);
+    Ok(match m {
+        Msg::Prov(x) => Built::Prov(build_prov(x)?),
+        Msg::Pub(x) => Built::Pub(build_pub(x)?),
+        Msg::Id(IdMsg::Child { idcert, handle }) => Built::Child(ChildRequest::new(idc(*idcert), h::<ChildHandle>(handle)?)),
+        Msg::Id(IdMsg::Parent { idcert, parent, child, service, tag }) => Built::Parent(ParentResponse::new(
+            idc(*idcert),
+            h::<ParentHandle>(parent)?,
+            h::<ChildHandle>(child)?,
+            svc(service)?,
+            tag.clone(),
+        )),
+        Msg::Id(IdMsg::Publisher { idcert, handle, tag }) => {
+            Built::Publisher(PublisherRequest::new(idc(*idcert), h::<PublisherHandle>(handle)?, tag.clone()))
+        }
+        Msg::Id(IdMsg::Repository { idcert, handle, service, sia_base, rrdp, tag }) => Built::Repository(RepositoryResponse::new(
+            idc(*idcert),
+            h::<PublisherHandle>(handle)?,
+            svc(service)?,
+            rs(sia_base)?,
+            match rrdp {
+                Some(u) => Some(hs(u)?),
+                None => None,
+            },
+            tag.clone(),
+        )),
+    })
+}
+
+//------------ classification ---------------------------------------------------------------
+
+fn xml_special(s: &str) -> bool {
+    s.contains(['<', '>', '&', '\'', '"'])
+}
+
+pub(crate) struct Traits {
+    pub variant: &'static str,
+    pub special: bool,
+    pub list2: bool,
+    pub tag_none: bool,
+    pub empty_content: bool,
+}
+
+pub(crate) fn traits(m: &Msg) -> Traits {
+    let mut t = Traits { variant: "", special: false, list2: false, tag_none: false, empty_content: false };
+    let lim_sp = |_: &LimitSpec| false;
+    match m {
+        Msg::Prov(p) => {
+            let class_sp = |c: &ClassSpec| {
+                xml_special(&c.class_name) || xml_special(&c.signing_url) || c.issued.iter().any(|i| xml_special(&i.uri) || lim_sp(&i.limit))
+            };
+            match &p.payload {
+                ProvPayload::List => t.variant = "6492-list",
+                ProvPayload::ListResponse(c) => {
+                    t.variant = "6492-list-response";
+                    t.special = c.iter().any(class_sp);
+                    t.list2 = c.len() >= 2 || c.iter().any(|c| c.issued.len() >= 2);
+                }
+                ProvPayload::Issue { class_name, .. } => {
+                    t.variant = "6492-issue";
+                    t.special = xml_special(class_name);
+                }
+                ProvPayload::IssueResponse(c) => {
+                    t.variant = "6492-issue-response";
+                    t.special = class_sp(c);
+                }
+                ProvPayload::Revoke { class_name, .. } => {
+                    t.variant = "6492-revoke";
+                    t.special = xml_special(class_name);
+                }
+                ProvPayload::RevokeResponse { class_name, .. } => {
+                    t.variant = "6492-revoke-response";
+                    t.special = xml_special(class_name);
+                }
+                ProvPayload::Error(_) => t.variant = "6492-error-response",
+            }
+        }
+        Msg::Pub(p) => match p {
+            PubMsg::ListQuery => t.variant = "8181-list-query",
+            PubMsg::ListReply(e) => {
+                t.variant = "8181-list-reply";
+                t.special = e.iter().any(|(u, _)| xml_special(u));
+                t.list2 = e.len() >= 2;
+            }
+            PubMsg::Delta(pdus) => {
+                t.variant = "8181-delta";
+                t.list2 = pdus.len() >= 2;
+                for p in pdus {
+                    let (tag, uri, data) = match p {
+                        PduSpec::Publish { tag, uri, data } => (tag, uri, Some(data)),
+                        PduSpec::Update { tag, uri, data, .. } => (tag, uri, Some(data)),
+                        PduSpec::Withdraw { tag, uri, .. } => (tag, uri, None),
+                    };
+                    t.special |= xml_special(uri) || matches!(tag, TagSpec::Some(s) if xml_special(s));
+                    t.tag_none |= *tag == TagSpec::None;
+                    t.empty_content |= data.map(|d| d.bytes().is_empty()).unwrap_or(false);
+                }
+            }
+            PubMsg::Success => t.variant = "8181-success",
+            PubMsg::Error(c) => {
+                t.variant = "8181-error-reply";
+                t.list2 = c.len() >= 2;
+            }
+        },
+        Msg::Id(i) => {
+            let svc_sp = |s: &SvcSpec| match s {
+                SvcSpec::Https(u) | SvcSpec::Http(u) => xml_special(u),
+            };
+            let tag_sp = |t: &Option<String>| t.as_deref().map(xml_special).unwrap_or(false);
+            match i {
+                IdMsg::Child { .. } => t.variant = "8183-child-request",
+                IdMsg::Parent { service, tag, .. } => {
+                    t.variant = "8183-parent-response";
+                    t.special = svc_sp(service) || tag_sp(tag);
+                }
+                IdMsg::Publisher { tag, .. } => {
+                    t.variant = "8183-publisher-request";
+                    t.special = tag_sp(tag);
+                }
+                IdMsg::Repository { service, sia_base, rrdp, tag, .. } => {
+                    t.variant = "8183-repository-response";
+                    t.special = svc_sp(service) || tag_sp(tag) || xml_special(sia_base) || rrdp.as_deref().map(xml_special).unwrap_or(false);
+                }
+            }
+        }
+    }
+    t
+}
+
+//------------ roundtrip -----------------------------------------------------------------------
+
+fn strategy(_: Tier) -> BoxedStrategy<Msg> {
+    msg()
+}
+
+fn run_roundtrip(m: &Msg, obs: &mut Obs) -> CheckResult {
+    let t = traits(m);
+    obs.label(t.variant);
+    obs.label_if(t.special, "special-char");
+    obs.label_if(t.list2, "list>=2");
+    obs.label_if(t.tag_none, "tag-none");
+    obs.label_if(t.empty_content, "empty-content");
+    obs.nontrivial_if(t.special || t.list2);
+    let built = build(m)?;
+    let xml = built.write();
+    let decoded = match built.decode_like(&xml) {
+        Ok(d) => d,
+        Err(e) => {
+            let sig = if t.empty_content { "publish-empty-content" } else { "roundtrip-decode-failed" };
+            return Err(Fail::sig(
+                sig,
+                format!("{}: the written message does not parse back: {}\n{}", t.variant, e, String::from_utf8_lossy(&xml[..xml.len().min(1500)])),
+            ));
+        }
+    };
+    if !t.tag_none {
+        ensure_sig!(
+            decoded.same(&built),
+            "roundtrip-not-equal",
+            "{}: decode(write(m)) != m\n{}", t.variant, String::from_utf8_lossy(&xml[..xml.len().min(1500)])
+        );
+        oracles::compare_fields(m, &decoded)?;
+    }
+    let xml2 = decoded.write();
+    ensure_sig!(
+        xml2 == xml,
+        "write-not-idempotent",
+        "{}: write(decode(write(m))) differs from write(m):\n{}\n---\n{}",
+        t.variant, String::from_utf8_lossy(&xml[..xml.len().min(800)]), String::from_utf8_lossy(&xml2[..xml2.len().min(800)])
+    );
+    Ok(())
+}
+
+const VARIANT_FLOORS: &[(&str, f64)] = &[
+    ("6492-list", 0.02), ("6492-list-response", 0.02), ("6492-issue", 0.02), ("6492-issue-response", 0.02),
+    ("6492-revoke", 0.02), ("6492-revoke-response", 0.02), ("6492-error-response", 0.02),
+    ("8181-list-query", 0.015), ("8181-list-reply", 0.03), ("8181-delta", 0.05), ("8181-success", 0.015), ("8181-error-reply", 0.015),
+    ("8183-child-request", 0.025), ("8183-parent-response", 0.025), ("8183-publisher-request", 0.025), ("8183-repository-response", 0.025),
+    ("special-char", 0.25), ("list>=2", 0.1), ("empty-content", 0.02), ("tag-none", 0.02),
+];
 
 pub fn property() -> Property {
-    Property { id: "C11", rule: "", assumptions: vec![], subs: vec![] }
+    Property {
+        id: "C11",
+        rule: RULE,
+        assumptions: vec![
+            "protocol-valid domain: handles match [-_A-Za-z0-9/]{1,255}; class names and tags are ASCII xsd:token values; an RFC 8181 error reply carries at least one report_error; identity certificates are certificates (non-empty)",
+            "publication PDUs with tag None are written as tag=\"\" and read back as Some(\"\") (RFC 8181 makes the tag mandatory): compared by write idempotence only",
+            "Time values have whole seconds within years 1..=9999; non-canonical Base64 strings injected through serde are not generated",
+            "IPv6 resource blocks whose text form contains a dotted quad (::ffff:0:0/96) are not generated: that defect (F16) is decided by C03",
+            "Python's expat is the reference for well-formedness; if python3 is unavailable the wellformed sub-check is inconclusive (exit 2)",
+        ],
+        subs: vec![
+            PropSub { name: "roundtrip", strategy, cases: |t| t.pick(120_000, 8_000_000), run: run_roundtrip, floors: VARIANT_FLOORS }.boxed(),
+            oracles::probe_sub(),
+            oracles::wellformed_sub(),
+            oracles::parsers_sub(),
+        ],
+    }
 }
